@@ -9,6 +9,7 @@ discriminants; every byte, length prefix, message code, array count, string leng
 from __future__ import annotations
 
 import asyncio
+import contextlib
 import json
 import os
 import zlib
@@ -19,7 +20,7 @@ from engine import symex, codec, c02env
 from engine.codec import SBytes, SStr, SWord
 from engine.symex import SBool
 from engine.vloop import VLoop
-from engine.c02env import (FakeReader, FakeWriter, Unbounded, le_value, ref_plain, ref_obfuscate, v_eq, v_ugt, terms,
+from engine.c02env import (FakeReader, FakeWriter, Unbounded, NONTERMINATION, watchdog, le_value, ref_plain, ref_obfuscate, v_eq, v_ugt, terms,
                            same_bytes, cut)
 
 import aioslsk.protocol.primitives as P
@@ -163,15 +164,28 @@ def classify(exc):
 # H1: parser totality + termination on fully symbolic frames (clauses a, b)
 # ------------------------------------------------------------------------------------------------------------------
 
+WATCHDOG_S = 3.0          # concrete decode of a frame of a few hundred bytes takes microseconds
+WATCHDOG_STREAM_S = 10.0  # concrete replay of a whole reader scenario
+
+
+def guard(c, concrete_data=False, seconds=WATCHDOG_S):
+    """watchdog for concrete executions (concrete replay, or exploration of fully concrete data); exploration of symbolic data is
+    bounded by the counting monitors (range, decompressobj stand-in)"""
+    if c.symbolic and not concrete_data:
+        return contextlib.nullcontext()
+    return watchdog(seconds)
+
+
 def decode_checked(c, conn, wire, frame_len, sig, idv=None, group=None):
     """run the real decode_message_data on `wire`; obligations of clause (a)/(b); returns the message or None"""
     with c02env.monitor(frame_len) as mon:
         try:
-            r = conn.decode_message_data(wire)
+            with guard(c):
+                r = conn.decode_message_data(wire)
         except MessageDeserializationError as e:
             c.reach('rejected:' + classify(e))
             r = None
-        except Unbounded as e:
+        except NONTERMINATION as e:
             c.check(False, 'parse_terminates', sig=sig, info=str(e))
             return None
         except Exception as e:  # noqa
@@ -214,20 +228,31 @@ COMPRESSED = sorted(k for k, v in MESSAGES.items() if v['compressed'] and v['gro
 
 
 def h_compressed(c, cls_name, m):
-    """compressed classes: a well-formed zlib container around m fully symbolic payload bytes (exploration: the tagged
-    identity stand-in; replay: real zlib.compress of the model bytes)"""
+    """compressed classes: a zlib container around m fully symbolic payload bytes, either COMPLETE (exploration: tagged identity
+    ZTAG + payload; replay: real zlib.compress of the model bytes) or TRUNCATED - a valid prefix of a stream that yields the
+    payload and then never reaches its end (exploration: ZTRUNC + payload; replay: a real sync-flushed stream without end marker)"""
     L = MESSAGES[cls_name]
     g = codec.Gen(c)
     payload = g.raw('payload', m)
+    truncated = c.choose(2, 'stream') == 1
     if c.symbolic:
-        body = list(codec.ZTAG) + terms(payload)
+        body = list(codec.ZTRUNC if truncated else codec.ZTAG) + terms(payload)
+    elif truncated:
+        co = zlib.compressobj()
+        body = list(co.compress(bytes(payload)) + co.flush(zlib.Z_SYNC_FLUSH))
     else:
         body = list(zlib.compress(bytes(payload)))
     fr = frame_of(L['id'], L['id_width'], body)
     wire = SBytes(fr) if c.symbolic else bytes(fr)
     conn = make_connection('peer', False)
-    with codec.installed(c.symbolic):
-        decode_checked(c, conn, wire, len(fr), ['peer', 'compressed', cls_name], L['id'], 'peer')
+    codec.ZLIB_MODEL['truncated_tag'] = True
+    try:
+        with codec.installed(c.symbolic):
+            decode_checked(c, conn, wire, len(fr), ['peer', 'truncated_stream' if truncated else 'compressed', cls_name], L['id'], 'peer')
+    finally:
+        codec.ZLIB_MODEL['truncated_tag'] = False
+    if truncated:
+        c.reach('truncated_stream')      # (rejected or parsed from the partial output: both are fine, it only has to end)
     c.reach('parsed')
 
 
@@ -296,14 +321,17 @@ def h_zlib(c, cls_name):
     sig = ['peer', 'corrupt_zlib', cls_name]
     with codec.installed(c.symbolic), c02env.monitor(len(fr)):
         try:
-            r = conn.decode_message_data(wire)
+            with guard(c, concrete_data=True):       # real zlib, real loops, concrete bytes: a hang must not hang the job
+                r = conn.decode_message_data(wire)
             c.reach('accepted')
             c.check(isinstance(r, P.MessageDataclass), 'corrupt_zlib_rejected_or_message', sig=sig)
+            c.check(True, 'parse_terminates', sig=sig)
         except MessageDeserializationError as e:
             c.reach('rejected:' + classify(e))
             c.check(True, 'corrupt_zlib_rejected_or_message', sig=sig)
-        except Unbounded as e:
-            c.check(False, 'parse_terminates', sig=sig, info=str(e))
+            c.check(True, 'parse_terminates', sig=sig)
+        except NONTERMINATION as e:
+            c.check(False, 'parse_terminates', sig=sig, info={'corruption': k, 'why': str(e)})
         except Exception as e:  # noqa
             c.check(False, 'corrupt_zlib_rejected_or_message', sig=sig + [type(e).__name__], info=repr(e))
     c.reach('parsed')
@@ -656,8 +684,9 @@ def h_reader(c, kind, bad, n_any=6):
             stream = [t for f in wire for t in f]
             with c02env.monitor(len(stream)):
                 try:
-                    env.feed(reader, cut(stream, segmentations(wire, seg)))
-                except Unbounded as e:
+                    with guard(c, seconds=WATCHDOG_STREAM_S):
+                        env.feed(reader, cut(stream, segmentations(wire, seg)))
+                except NONTERMINATION as e:
                     c.check(False, 'parse_terminates', sig=sig, info=str(e))
                     return
                 c.reach('stream_fed')
@@ -716,7 +745,8 @@ def h_stall(c, kind, end):
                 conn, reader, writer, _ = env.incoming(obf_port)
             stream = [t for f in wire for t in f]
             with c02env.monitor(len(stream)):
-                env.feed(reader, cut(stream, segmentations(wire, seg)))
+                with guard(c, seconds=WATCHDOG_STREAM_S):
+                    env.feed(reader, cut(stream, segmentations(wire, seg)))
                 c.reach('stalled')
                 got = env.delivered(conn)
                 c.check(codec._and(len(got) == 1, msg_equal(c, got[0], v1) if got else False), 'incomplete_frame_not_delivered', sig=sig,
@@ -774,8 +804,9 @@ def h_accept(c, obf_port, bad, n_any=8):
             stream = [t for f in wire for t in f]
             with c02env.monitor(len(stream)):
                 try:
-                    env.feed(rb, cut(stream, segmentations(wire, seg)))
-                except Unbounded as e:
+                    with guard(c, seconds=WATCHDOG_STREAM_S):
+                        env.feed(rb, cut(stream, segmentations(wire, seg)))
+                except NONTERMINATION as e:
                     c.check(False, 'parse_terminates', sig=sig, info=str(e))
                     return
                 if bad == 'incomplete_eof':
@@ -918,10 +949,11 @@ def jobs(tier):
                                 'requires': base_req, 'weight': w / parts, **lim})
     for name in COMPRESSED:
         for m in range(b['Z'] + 1):
-            out.append({'harness': 'compressed', 'fn': h_compressed, 'params': {'cls_name': name, 'm': m}, 'requires': base_req,
+            out.append({'harness': 'compressed', 'fn': h_compressed, 'params': {'cls_name': name, 'm': m},
+                        'requires': base_req + ['truncated_stream'],
                         'weight': 180 * 1.33 ** (m - 20), **lim})
         out.append({'harness': 'zlib', 'fn': h_zlib, 'params': {'cls_name': name}, 'weight': 64,
-                    'requires': ['parsed', 'corrupt_zlib_rejected_or_message', 'rejected:corrupt_zlib'], **lim})
+                    'requires': ['parsed', 'corrupt_zlib_rejected_or_message', 'parse_terminates', 'rejected:corrupt_zlib'], **lim})
     # H2
     for obf in (False, True):
         T = b['T'] + (4 if obf else 0)
